@@ -23,6 +23,8 @@ pub struct NodeCfg {
     pub autopoll: u8,
     /// boot code installs this UUID after (re)start, if any
     pub boot_uuid: Option<[u8; 16]>,
+    /// 0 = the driver always receives into the start of its RX buffer, 1 = at a rotating offset
+    pub rx_mode: u8,
 }
 
 pub struct Cfg {
@@ -111,6 +113,7 @@ pub fn draw(ch: &mut Chooser, prof: &Profile) -> Cfg {
         } else {
             None
         };
+        let rx_mode = ch.choose(2) as u8;
         if i >= n_nodes {
             continue;
         }
@@ -126,6 +129,7 @@ pub fn draw(ch: &mut Chooser, prof: &Profile) -> Cfg {
             poison_resp,
             autopoll,
             boot_uuid,
+            rx_mode,
         });
     }
     ch.mark();
